@@ -275,13 +275,16 @@ def coq_eval(imports, term, prelude='', extra_q=()):
     shutil.rmtree(d, ignore_errors=True)
     return (out if rc == 0 else 'ERROR ' + err)[-2000:].strip()
 
-def gen_build(gen_files, bridges, timeout=900):
+def gen_build(gen_files, bridges, timeout=900, logical='Gen'):
     """Write generated Coq files + bridge obligations into build/gen-<sha of all text>/ and compile them.
     gen_files: list of (module name, text);  bridges: list of (name, text) importing `From Gen Require Import ...`.
     Returns dict(dir, dir_hash, bridge_results=[(name, True | message)])."""
     h = hashlib.sha256()
     for n, t in list(gen_files) + list(bridges):
         h.update(n.encode()); h.update(t.encode())
+    h.update(logical.encode())
+    for lib in ('KernelLib.v',):      # the bridge tactic lives in the static library: a changed tactic is a different build
+        if logical != 'Gen': h.update(open(os.path.join(COQ, lib), 'rb').read())
     dh = h.hexdigest()[:16]
     d = os.path.join(BUILD, 'gen-' + dh)
     results = []
@@ -293,13 +296,13 @@ def gen_build(gen_files, bridges, timeout=900):
     ok_all = True
     for n, t in gen_files:
         with open(os.path.join(tmpd, n + '.v'), 'w') as f: f.write(t)
-        rc, out, err = coqc(os.path.join(tmpd, n + '.v'), extra_q=[(tmpd, 'Gen')], timeout=timeout)
+        rc, out, err = coqc(os.path.join(tmpd, n + '.v'), extra_q=[(tmpd, logical)], timeout=timeout)
         if rc != 0:
             results.append(('generated file ' + n, 'does not compile: ' + (err or out)[-600:])); ok_all = False
     def _one(nt):
         n, t = nt
         with open(os.path.join(tmpd, n + '.v'), 'w') as f: f.write(t)
-        rc, out, err = coqc(os.path.join(tmpd, n + '.v'), extra_q=[(tmpd, 'Gen')], timeout=timeout)
+        rc, out, err = coqc(os.path.join(tmpd, n + '.v'), extra_q=[(tmpd, logical)], timeout=timeout)
         bad = re.findall(r'\b(Admitted|admit|Axiom|Parameter|Conjecture)\b', t)
         if rc != 0: return (n, 'bridge obligation fails: ' + (err or out)[-800:])
         if bad: return (n, f'forbidden keyword {bad}')
@@ -317,6 +320,52 @@ def gen_build(gen_files, bridges, timeout=900):
     if all(r[1] is True for r in results) and os.path.isdir(d):
         with open(marker, 'w') as f: json.dump(info, f)
     return info
+
+# --------------------------------------------------------------------------------------------
+# kernel tie: translated source = hand model (tools/gen/kernels.py)
+# --------------------------------------------------------------------------------------------
+def kernel_tie(pid):
+    """Translate the kernels this property's model mirrors from /repo's working tree, prove the bridge obligations, and for every
+    bridge that no longer proves evaluate both sides on the exhaustive small domain.
+    -> dict(dir, proved=[...], unproved=[(name, why)], untranslatable=[(name, why)], diverging={name: [decoded argument dicts]})"""
+    from gen import kernels
+    text, bridges, info = kernels.emit(REPO, pid)
+    res = {'dir': None, 'proved': [], 'unproved': [], 'untranslatable': info['failed'], 'diverging': {}, 'translated': info['translated']}
+    if not bridges:
+        return res
+    bridges = [(n, t.replace('From Gen Require', 'From GenK Require')) for n, t in bridges]
+    b = gen_build([('GenKernels', text)], bridges, timeout=300, logical='GenK')
+    res['dir'] = b['dir']
+    failed_gen = [r for r in b['bridge_results'] if r[0].startswith('generated file')]
+    for name, r in b['bridge_results']:
+        if name.startswith('generated file'): continue
+        (res['proved'] if r is True else res['unproved']).append(name if r is True else (name, str(r)[-300:]))
+    if failed_gen:
+        res['unproved'] += [(n, 'generated definitions do not compile: ' + str(r)[-300:]) for n, r in failed_gen]
+        return res
+    if res['unproved'] and os.path.isdir(b['dir']) is False:
+        # a failed build is not kept under its content address: rebuild the generated file alone for the search
+        b2 = gen_build([('GenKernels', text)], [], timeout=300, logical='GenK'); res['dir'] = b2['dir']
+    specs = {k['name']: k for k in kernels.KERNELS}
+    for name, why in list(res['unproved']):
+        spec = specs.get(name)
+        if spec is None or not res['dir'] or not os.path.isdir(res['dir']): continue
+        try:
+            stext, decode = kernels.search_text(spec)
+        except kernels.Untranslatable:
+            continue
+        d = os.path.join(BUILD, f'ksearch-{os.getpid()}-{name}')
+        os.makedirs(d, exist_ok=True)
+        p = os.path.join(d, 'S.v')
+        open(p, 'w').write(stext)
+        rc, out, err = coqc(p, extra_q=[(res['dir'], 'GenK')], timeout=300)
+        shutil.rmtree(d, ignore_errors=True)
+        if rc == 0:
+            res['diverging'][name] = kernels.parse_search_output(out, decode, 0) or []
+        else:
+            res['diverging'][name] = []
+            res['unproved'].append((name + ':search', (err or out)[-300:]))
+    return res
 
 # --------------------------------------------------------------------------------------------
 # known findings
@@ -417,6 +466,25 @@ def drive(mod, tier, seed, replay=None):
                 discharged += 1
             else:
                 broken.append(f'bridge obligation {name}: {res}')
+    # 2b. kernel tie: the Python source of the kernels this model mirrors, translated and bridged to the hand model
+    ktie = {}
+    kernel_cases = []
+    if ok and os.environ.get('VERIF_NO_KERNELS') != '1':
+        try:
+            ktie = kernel_tie(pid)
+        except Exception as e:
+            ktie = {'error': f'{type(e).__name__}: {e}', 'proved': [], 'unproved': [('kernel tie', str(e))], 'untranslatable': [], 'diverging': {}}
+        obligations += len(ktie.get('proved', [])) + len({n for n, _ in ktie.get('unproved', []) if ':' not in n and n != 'kernel tie'})
+        discharged += len(ktie.get('proved', []))
+        if hasattr(mod, 'kernel_cases'):
+            for name, argsl in ktie.get('diverging', {}).items():
+                for a in argsl[:40]:
+                    try:
+                        for c in mod.kernel_cases(name, a) or []:
+                            c = dict(c); c['_kernel'] = name; kernel_cases.append(c)
+                    except Exception:
+                        pass
+    out.log['kernel_tie'] = {k: (v if k != 'diverging' else {n: x[:5] for n, x in v.items()}) for k, v in ktie.items() if k != 'dir'}
     if ok:
         for rel in mod.COQ_PROPS:
             r = check_props_file(rel, getattr(mod, 'ALLOWED_AXIOMS', ()), extra_q=extra_q)
@@ -437,6 +505,7 @@ def drive(mod, tier, seed, replay=None):
         rp = json.load(open(replay))
         cases = [rp['case']] if 'case' in rp else []
     else:
+        cases += kernel_cases            # arguments on which the translated source and the hand model differ (when a bridge no longer proves)
         cases += list(mod.gen_cases(rng, tier))
     # 3b. change-triggered escalation: the source of a function this property's model mirrors differs from the pinned tree the
     #     model was validated against -> also run (a bounded part of) the thorough-tier generators through the whole pipeline.
@@ -446,6 +515,9 @@ def drive(mod, tier, seed, replay=None):
         changed = _sources.changed_functions(REPO, pid)
     except Exception as e:
         out.log['pins_error'] = f'{type(e).__name__}: {e}'
+    if ktie.get('unproved') or ktie.get('untranslatable'):
+        # a kernel bridge that no longer proves forces the escalation as well (the digests say the same, this is the semantic version)
+        changed = changed + [f'kernel:{n}' for n, _ in ktie.get('unproved', []) + ktie.get('untranslatable', []) if f'kernel:{n}' not in changed]
     out.log['changed_modelled_functions'] = changed[:40]
     escalated = 0
     if changed and tier == 'quick' and not replay and os.environ.get('VERIF_NO_ESCALATE') != '1':
@@ -587,6 +659,8 @@ def drive(mod, tier, seed, replay=None):
         'oracle_failures': len(fails), 'known_finding_hits': len(fails) - len(fail_idx),
         'input_histogram': hist, 'broken': broken,
         'changed_modelled_functions': changed[:40], 'escalated_cases': escalated,
+        'kernel_bridges': {'proved': ktie.get('proved', []), 'unproved': [n for n, _ in ktie.get('unproved', [])], 'untranslatable': [n for n, _ in ktie.get('untranslatable', [])],
+                           'diverging_inputs_replayed': len(kernel_cases)},
     }
     out.assumptions = getattr(mod, 'ASSUMPTIONS', [])
     return out.finish('proof')
